@@ -233,18 +233,21 @@ pub enum Tr {
     /// the serial recorder handed to the driver as `&mut T` (the crate's
     /// forwarding `impl Interface for &mut T`)
     L1Ref,
+    /// a user-written interface of kind Serial4Line that takes 16-bit words (an SPI peripheral
+    /// in 16-bit frame mode): a (word type, kind) pair none of the crate's own interfaces has
+    L1S16,
 }
-pub const ALL_TR: [Tr; 7] = [Tr::Spi, Tr::P8, Tr::P16, Tr::L1S, Tr::L1P8, Tr::L1P16, Tr::L1Ref];
+pub const ALL_TR: [Tr; 8] = [Tr::Spi, Tr::P8, Tr::P16, Tr::L1S, Tr::L1P8, Tr::L1P16, Tr::L1Ref, Tr::L1S16];
 impl Tr {
     pub fn kind(self) -> Kind {
         match self {
-            Tr::Spi | Tr::L1S | Tr::L1Ref => Kind::Serial,
+            Tr::Spi | Tr::L1S | Tr::L1Ref | Tr::L1S16 => Kind::Serial,
             Tr::P8 | Tr::L1P8 => Kind::Par8,
             Tr::P16 | Tr::L1P16 => Kind::Par16,
         }
     }
     pub fn width(self) -> u8 {
-        if self.kind() == Kind::Par16 {
+        if matches!(self, Tr::P16 | Tr::L1P16 | Tr::L1S16) {
             16
         } else {
             8
@@ -262,6 +265,7 @@ impl Tr {
             Tr::L1P8 => "l1-par8",
             Tr::L1P16 => "l1-par16",
             Tr::L1Ref => "l1-serial-by-ref",
+            Tr::L1S16 => "l1-serial-16-bit-words",
         }
     }
     /// can `Builder` express this colour depth on this transport?
@@ -315,6 +319,7 @@ impl DispCfg {
             .with("model", self.model.name())
             .with("transport", self.tr.name())
             .with("spi_buf", self.spi_buf)
+            .with("spi_buf_address_mod_4", self.spi_buf_offset())
             .with("size", vec![self.w, self.h])
             .with("offset", vec![self.ox, self.oy])
             .with("orientation", self.ori.name())
@@ -323,6 +328,10 @@ impl DispCfg {
             .with("invert", self.invert)
             .with("reset_pin", self.rst)
             .with("builder_call_order", self.order)
+    }
+    /// deterministic from the rest of the configuration
+    pub fn spi_buf_offset(&self) -> usize {
+        (self.order as usize / 3 + self.ox as usize + self.w as usize * 3 + self.spi_buf / 5 + self.ori.0 as usize) % 4
     }
     pub fn options(&self) -> ModelOptions {
         let mut o = ModelOptions::with_all((self.w, self.h), (self.ox, self.oy));
@@ -656,13 +665,31 @@ macro_rules! rebuild_u16 {
     };
 }
 
-pub struct SpiBuf(*mut [u8]);
+/// The SPI staging buffer lives inside an 8-byte aligned arena, at a byte offset of 0..=3 chosen
+/// per configuration: user buffers are sub-slices of bigger arrays as often as not, so their
+/// address is not a multiple of anything.
+pub struct SpiBuf(*mut [u64]);
 impl Drop for SpiBuf {
     fn drop(&mut self) {
-        // SAFETY: created by Box::into_raw in TSpi::make; the interface that
+        // SAFETY: created by Box::into_raw in spi_buffer; the interface that
         // borrowed it is dropped before this (field order in RigImpl)
         unsafe { drop(Box::from_raw(self.0)) }
     }
+}
+/// `len` bytes at `offset` (0..=7) inside a fresh 8-aligned arena
+pub fn spi_buffer(len: usize, offset: usize) -> (&'static mut [u8], SpiBuf) {
+    let offset = offset % 8;
+    let words = (len + offset + 7) / 8 + 1;
+    let b: Box<[u64]> = vec![0u64; words].into_boxed_slice();
+    let raw = Box::into_raw(b);
+    // SAFETY: the allocation lives until SpiBuf is dropped, which happens after the interface
+    // (and the display holding it) is dropped; offset + len <= 8 * words
+    let r: &'static mut [u8] = unsafe { std::slice::from_raw_parts_mut((raw as *mut u8).add(offset), len) };
+    // sentinel pattern: stale buffer content on the wire is recognisable
+    for (i, x) in r.iter_mut().enumerate() {
+        *x = 0xA0 | (i as u8 & 0x0F);
+    }
+    (r, SpiBuf(raw))
 }
 
 pub struct TSpi;
@@ -671,13 +698,9 @@ impl Transport for TSpi {
     type E = SpiError<Fault, Fault>;
     type Keep = SpiBuf;
     fn make(tl: &Tl, spi_buf: usize, _via_from: bool) -> (Self::DI, SpiBuf) {
-        // sentinel pattern: stale buffer content on the wire is recognisable
-        let b: Box<[u8]> = (0..spi_buf).map(|i| 0xA0 | (i as u8 & 0x0F)).collect();
-        let raw = Box::into_raw(b);
-        // SAFETY: the allocation lives until SpiBuf is dropped, which happens
-        // after the interface (and the display holding it) is dropped
-        let r: &'static mut [u8] = unsafe { &mut *raw };
-        (SpiInterface::new(tl.spi(), tl.pin(Src::Dc), r), SpiBuf(raw))
+        let off = tl.0.borrow().spi_buf_offset;
+        let (r, keep) = spi_buffer(spi_buf, off);
+        (SpiInterface::new(tl.spi(), tl.pin(Src::Dc), r), keep)
     }
     rebuild_u8!(TSpi);
 }
@@ -767,6 +790,17 @@ impl Transport for TL1P16 {
         (L1::new(tl), ())
     }
     rebuild_u16!(TL1P16);
+}
+
+pub struct TL1S16;
+impl Transport for TL1S16 {
+    type DI = L1<u16, KSerial>;
+    type E = Fault;
+    type Keep = ();
+    fn make(tl: &Tl, _: usize, _: bool) -> (Self::DI, ()) {
+        (L1::new(tl), ())
+    }
+    rebuild_u16!(TL1S16);
 }
 
 pub struct RefKeep(*mut L1<u8, KSerial>);
@@ -868,6 +902,9 @@ struct Counting<'a, I> {
     inner: I,
     n: &'a mut u64,
     limit: u64,
+    /// what size_hint reports before the first item is pulled (see Stream::hint); afterwards
+    /// the always-valid (0, None)
+    hint: (usize, Option<usize>),
 }
 impl<I: Iterator> Iterator for Counting<'_, I> {
     type Item = I::Item;
@@ -886,6 +923,13 @@ impl<I: Iterator> Iterator for Counting<'_, I> {
         }
         self.inner.nth(n)
     }
+    fn size_hint(&self) -> (usize, Option<usize>) {
+        if *self.n == 0 {
+            self.hint
+        } else {
+            (0, None)
+        }
+    }
 }
 
 impl<T: Transport, M: Model, RST: embedded_hal::digital::OutputPin> Rig for RigImpl<T, M, RST>
@@ -903,7 +947,7 @@ where
                 Op::SetPixel { x, y, c } => d.set_pixel(*x, *y, C::<M>::from_tag(*c)),
                 Op::SetPixels { sx, sy, ex, ey, colors } => {
                     *pulled = 0;
-                    d.set_pixels(*sx, *sy, *ex, *ey, Counting { inner: colors.iter::<C<M>>(), n: pulled, limit })
+                    d.set_pixels(*sx, *sy, *ex, *ey, Counting { inner: colors.iter::<C<M>>(), n: pulled, limit, hint: colors.hint() })
                 }
                 Op::DrawIter { pixels } => {
                     // the size_hint the stream reports varies with its content (deterministic)
@@ -915,7 +959,7 @@ where
                 }
                 Op::FillContiguous { rect, colors } => {
                     *pulled = 0;
-                    d.fill_contiguous(&rect.eg(), Counting { inner: colors.iter::<C<M>>(), n: pulled, limit })
+                    d.fill_contiguous(&rect.eg(), Counting { inner: colors.iter::<C<M>>(), n: pulled, limit, hint: colors.hint() })
                 }
                 Op::FillSolid { rect, c } => d.fill_solid(&rect.eg(), C::<M>::from_tag(*c)),
                 Op::Clear { c } => d.clear(C::<M>::from_tag(*c)),
@@ -1040,6 +1084,8 @@ fn go<M: MkModel, T: Transport>(cfg: &DispCfg, tl: &Tl) -> Built
 where
     M::ColorFormat: InterfacePixelFormat<<T::DI as Interface>::Word> + TagColor,
 {
+    // address of the SPI staging buffer modulo 4 (part of the configuration: see to_json)
+    tl.b().spi_buf_offset = cfg.spi_buf_offset();
     let (di, keep) = T::make(tl, cfg.spi_buf, cfg.order & 1 == 1);
     go_with::<M, T>(di, keep, cfg, tl)
 }
@@ -1123,6 +1169,7 @@ fn go565<M: MkModel<ColorFormat = Rgb565>>(cfg: &DispCfg, tl: &Tl) -> Built {
         Tr::L1S => go::<M, TL1S>(cfg, tl),
         Tr::L1P8 => go::<M, TL1P8>(cfg, tl),
         Tr::L1P16 => go::<M, TL1P16>(cfg, tl),
+        Tr::L1S16 => go::<M, TL1S16>(cfg, tl),
         Tr::L1Ref => go::<M, TL1Ref>(cfg, tl),
     }
 }
@@ -1133,7 +1180,7 @@ fn go666<M: MkModel<ColorFormat = Rgb666>>(cfg: &DispCfg, tl: &Tl) -> Built {
         Tr::L1S => go::<M, TL1S>(cfg, tl),
         Tr::L1P8 => go::<M, TL1P8>(cfg, tl),
         Tr::L1Ref => go::<M, TL1Ref>(cfg, tl),
-        Tr::P16 | Tr::L1P16 => panic!("harness: an Rgb666 model on a 16-bit bus does not type-check"),
+        Tr::P16 | Tr::L1P16 | Tr::L1S16 => panic!("harness: an Rgb666 model on a 16-bit bus does not type-check"),
     }
 }
 
